@@ -4,6 +4,7 @@ import itertools
 import json
 import os
 import re
+import unicodedata
 from fractions import Fraction
 
 import fw
@@ -25,16 +26,18 @@ THEOREMS = [
     'C02.parse_print', 'C02.parse_print_ws', 'C02.parse_printPad', 'C02.print_injective', 'C02.printL_head',
     'C02.parse_in_image', 'C02.image_of_printable', 'C02.printable_of_image', 'C02.printable_of_parse_partial', 'C02.parse_print_parse',
     'C02.render_ofString', 'C02.numOk_decVal',
+    # the Unicode character classes of the token patterns against each other (finite table facts + interval reasoning)
+    'C02.digit_word', 'C02.idStart_word', 'C02.word_not_space', 'C02.digit_not_idStart',
 ]
 ASSUMPTIONS = [
     'CPython re engine: the hand-written scanners of the model (BareModel/ExprScan.lean) re-implement each anchored token pattern, '
     'including the two observable backtracking cases (string escapes, bracketed names); tied by Gen/Regex (pattern sources pinned by '
     'theorem regex_sources_pinned) + correspondence streams expr/tokens',
     'float(text) is the correctly rounded value of the decimal literal (the model keeps the exact rational; the harness rounds it)',
-    r'\s is modelled exactly (29 code points); \w and \d are modelled on ASCII only: a non-ASCII letter/digit OUTSIDE a string literal or '
-    'bracketed name (e.g. the identifier "a\u00e9", the number "\u0663") is outside the model - such texts are excluded from the '
-    'model/implementation comparison and checked on the implementation only (reference parser with the full Unicode classes + '
-    '"nothing but BareScriptParserError escapes")',
+    r'\s, \d, \w are modelled exactly as the Unicode classes of a str pattern (29 / 680 / 137936 code points, tables frozen from CPython 3.12 / '
+    'Unicode 15.0: ExprScan.isPySpace, Rx.digitRanges with the decimal value of every digit, Text.wordRanges; compared with re for every code '
+    'point by the streams charclass of C10 and rx-classes of c06x and digit-values of this module): the identifier "a\u00e9" and the number '
+    '"\u0663" are inside the model and compared like any other text',
     'number literals with an exponent of more than 3 digits are excluded from the model comparison (exact rational 10^n in the driver); '
     'lone surrogate code points are not generated (JSON transport)',
     'Python recursion limit: nesting is kept <= 50 (RecursionError for nesting > ~300 is outside the model, DESIGN section 6)',
@@ -319,10 +322,10 @@ _NONASCII_WORD = re.compile(r'[^\x00-\x7f]')
 
 
 def in_model(text):
-    """Conservative: no non-ASCII character that is a word character (\\w, which includes \\d), no surrogates, short exponents."""
+    """No surrogates (JSON transport), short exponents, few backslashes.  (Non-ASCII word characters / digits ARE in the model.)"""
     for m in _NONASCII_WORD.finditer(text):
         c = m.group(0)
-        if 0xd800 <= ord(c) <= 0xdfff or re.match(r'\w', c):
+        if 0xd800 <= ord(c) <= 0xdfff:
             return False
     if re.search(r'e[+-]\d{4}', text):
         return False
@@ -337,8 +340,26 @@ WS_COMMON = ['', '', '', '', '', ' ', ' ', ' ', '  ', '\t', ' \t ']
 WS_RARE = ['\n', '\r\n', '\x0b', '\x0c', '\x1c', '\x1d', '\x1e', '\x1f', '\x85', '\xa0', '\u1680', '\u2000', '\u2003', '\u200a',
            '\u2028', '\u2029', '\u202f', '\u205f', '\u3000', ' \n\t ']
 IDENTS = ['a', 'b', 'x', 'y', 'e', 'e5', '_', '__', '_x1', 'abc', 'fooBar', 'x_1', 'if', 'true', 'false', 'null', 'while', 'endif',
-          'A', 'Z9', 'jump', 'function', 'e1', 'E']
-FUNCS = ['ff', 'if', 'mathMax', 'arrayNew', '__', '_1', 'a1', 'fn', 'objectGet', 'ab_', 'E5']
+          'A', 'Z9', 'jump', 'function', 'e1', 'E',
+          # Unicode \w behind an ASCII first character (the patterns are compiled without re.ASCII)
+          'a\u00e9', 'x\u0663', '_\u4e2d\u6587', 'e\u0665', 'caf\u00e9', 'x\u00b2', 'n\uff11', 'k\U0001d7d8', 'A\u0416\u03a9', 'i\u2167']
+FUNCS = ['ff', 'if', 'mathMax', 'arrayNew', '__', '_1', 'a1', 'fn', 'objectGet', 'ab_', 'E5', 'caf\u00e9', 'f\u0663', 'g\u4e2d', 'h\U0001d7d8']
+# the zero digit of every run of ten Unicode decimal digits (category Nd), ASCII excluded
+UNI_ZEROS = [c for c in range(0x80, 0x110000) if unicodedata.decimal(chr(c), None) == 0]
+
+
+def uni_digits(rng, text):
+    """The same number text with (some of) its ASCII digits written in other Unicode decimal-digit blocks: re \\d matches them and
+    float() reads them with the same value."""
+    mode = rng.random()
+    z = rng.choice(UNI_ZEROS)
+    out = []
+    for ch in text:
+        if '0' <= ch <= '9' and (mode < 0.5 or rng.random() < 0.5):
+            out.append(chr((z if mode < 0.8 else rng.choice(UNI_ZEROS)) + ord(ch) - 48))
+        else:
+            out.append(ch)
+    return ''.join(out)
 STR_CHARS = list('abc xyz019+-*/()[],.!<>=&|#:;') + ['\t', '\u00e9', '\u20ac', '\u0663', '\u4e2d', '\U0001f600', '\xa0', '\n']
 BR_CHARS = list('abc xyz019+-*/()[,.!<>=&|\'"') + ['\t', '\u00e9', '\u20ac', '\u0663', '\U0001f600']
 
@@ -349,7 +370,8 @@ class Gen:
     def __init__(self, rng, rare_ws=0.06, unicode_letters=True):
         self.rng = rng
         self.rare_ws = rare_ws
-        # non-ASCII letters/digits inside string literals and bracketed names (inside the model as long as they stay there)
+        self.unicode_letters = unicode_letters
+        # non-ASCII letters/digits inside string literals and bracketed names, Unicode digits in numbers
         self.str_chars = STR_CHARS if unicode_letters else [c for c in STR_CHARS if c.isascii() or not re.match(r'\w', c)]
         self.br_chars = BR_CHARS if unicode_letters else [c for c in BR_CHARS if c.isascii() or not re.match(r'\w', c)]
 
@@ -383,6 +405,8 @@ class Gen:
             text += 'e' + sign + ed
         if r.random() < 0.15:
             text = '+' + text
+        if self.unicode_letters and r.random() < 0.08:
+            text = uni_digits(r, text)
         val = Fraction(int(ip + fp)) * Fraction(10) ** (ex - len(fp))
         return [text], {'number': [val.numerator, val.denominator]}
 
@@ -513,15 +537,18 @@ SOUP = (OPS + OPS + ['=', '&', '|', '!', '!', '<>', '***', '(', '(', ')', ')', '
                      '[v]', '[ a b ]', '[a\\]b]', '[]', '[ ]', '[   ]', '[a', '[a]]', '[a\\\\]', '[a\\]', '[ \\]', '[\\]]',
                      ' ', ' ', '  ', '\t', '\n', '\x0b', '\x1c', '\x85', '\xa0', '\u2003', '\u3000',
                      '\u20ac', '\u2192', '\U0001f600', '\u200b', '\ufeff'])
-# non-ASCII letters / digits / numerics: outside the model when they end up outside a string or bracketed name
-SOUP_UNI = ['\u00e9', 'a\u00e9', '\u0663', '1\u0663', '1.\u0663', '1e+\u0663', '\u00b2', 'x\u00b2', '\u2167', 'ff\u00e9(', '\u4e2d', 'a\u0663(', "'\u00e9'",
+# non-ASCII letters / digits / numerics (\w and \d of the token patterns are the Unicode classes; \u00b2 \u2167 are \w but not \d)
+SOUP_UNI = ['\u0663\u0664', '\u0661.\u0665e+\u0662', '+\u0967', '-\uff15', '1\u0663x', 'a\U0001d7d8', '\U0001d7ce\U0001d7ff', '\U0001fbf9',
+            '\u0663.', '.\u0663', '\u0663e+', '\u0663 \u0663', 'e\u0663', '_\u00e9(', 'ff\u0663 (', '\u00e9(', '\u0663(', 'a\u00e9\u0663_', '\u0345',
+            'a\u0301', '\u00aa', 'x\u00aa', '\u00b5m', 'a\u200d', 'a\u00b7', '\u19da', '1\u19da',
+            '\u00e9', 'a\u00e9', '\u0663', '1\u0663', '1.\u0663', '1e+\u0663', '\u00b2', 'x\u00b2', '\u2167', 'ff\u00e9(', '\u4e2d', 'a\u0663(', "'\u00e9'",
             '[\u0663]', '\uff11', '\U0001d7d8']
 
 
 def soup_case(rng):
     n = rng.choice([1, 2, 2, 3, 3, 4, 5, 6, 8, 12])
     sep = rng.choice(['', ' ', ' ', 'mix'])
-    toks = [rng.choice(SOUP) if rng.random() < 0.97 else rng.choice(SOUP_UNI) for _ in range(n)]
+    toks = [rng.choice(SOUP) if rng.random() < 0.9 else rng.choice(SOUP_UNI) for _ in range(n)]
     if sep == 'mix':
         return ''.join(t + rng.choice(['', ' ']) for t in toks)
     return sep.join(toks)
@@ -722,9 +749,10 @@ def stream_tokens(ctx):
                               'whitespace, non-ASCII symbols/letters/digits) and single mutations of valid expressions (delete/insert/swap/'
                               'duplicate/replace a token, unbalanced parens, trailing/leading operator, bad escapes, character edits, '
                               'truncation): accept/reject agreement, equal tree on accept, equal error text and column on reject; texts with '
-                              'non-ASCII letters/digits are checked on the implementation only; non-trivial = at least 2 characters')
+                              'non-ASCII letters/digits (Unicode \\w / \\d: identifiers like a\u00e9, numbers like \u0663.\u0665) are compared with the model '
+                              'like all others; non-trivial = at least 2 characters')
     rng = ctx.rng('tokens')
-    gen = Gen(rng, rare_ws=0.03, unicode_letters=False)
+    gen = Gen(rng, rare_ws=0.03)
     cases = [('corpus', t) for t in load_corpus()] + [('deep', t) for t in deep_cases()]
     for _ in range(ctx.scale(5000, 120000)):
         cases.append(('soup', soup_case(rng)))
@@ -751,11 +779,11 @@ PP_ODD_NAMES = ['a b', 'x y]z', ' ', '\t', '　', '9lives', 'a-b', 'a.b', 'é', 
                 'a"b', 'π r²', '\U0001f600', 'a ', 'a \t', 'tab\there', 'new\nline', '\\\\x', '\\x', 'a\\]b', '(', ')', ',', '1', '1.5', '-',
                 '!', 'a,b', '٣', 'a b', "'", '"', '#', ':', '=', 'x\\ ', '中文']
 PP_BAD_NAMES = ['', ' a', '　a', '\ta b', 'a\\', '\\', 'a b\\', '  ', '\\\\', ']\\']
-PP_FUNCS = FUNCS + ['f', 'g', 'x', '_', 'null', 'systemFetch', 'A']
-PP_BAD_FUNCS = ['', 'a b', '1f', 'f-g', 'café', 'f(', ' f', '[f]']
+PP_FUNCS = FUNCS + ['f', 'g', 'x', '_', 'null', 'systemFetch', 'A', 'z\u00df\u0663']
+PP_BAD_FUNCS = ['', 'a b', '1f', 'f-g', 'éa', '٣f', 'caf-é', 'f(', ' f', '[f]']
 PP_PADS = ['', '', ' ', ' ', '  ', '\t', ' \t ', '\n', '\r\n', '\x0b\x0c', '\x1c\x1f', '\x85', '\xa0', ' ', '  ', ' ', ' ',
            '  ', '　']
-_PP_IDENT = re.compile(r'[A-Za-z_][A-Za-z0-9_]*\Z')
+_PP_IDENT = re.compile(r'[A-Za-z_]\w*\Z')       # Unicode \w, as the token patterns
 
 
 def py_printable(e):
@@ -979,11 +1007,37 @@ def shrink_witnesses(ctx):
         ctx.witnesses.insert(0, {'oracle': oracle, 'input': text, 'expected': want, 'actual': got, 'shrunk_from': origin})
 
 
+def stream_digit_values(ctx):
+    st = ctx.stream('digit-values', 'every code point of a Unicode numeric category (Nd: the 680 decimal digits that re \\d and float() accept; '
+                                    'Nl / No: numerics that are \\w or nothing, never \\d) as a text of its own, behind an ASCII digit, behind a '
+                                    'letter and as a fraction digit: implementation vs model (digit class AND digit value), and the value known '
+                                    'from unicodedata.decimal; exhaustive; non-trivial = a decimal digit outside ASCII')
+    cases = []
+    for cp in range(0x110000):
+        ch = chr(cp)
+        cat = unicodedata.category(ch)
+        if not cat.startswith('N'):
+            continue
+        d = unicodedata.decimal(ch, None)
+        for text, want in ((ch, None if d is None else {'number': round_fraction(d, 1)}),
+                           ('1' + ch, None if d is None else {'number': round_fraction(10 + d, 1)}),
+                           ('a' + ch, {'variable': 'a' + ch} if re.match(r'\w', ch) else None),
+                           ('0.' + ch + '5', None if d is None else {'number': round_fraction(10 * d + 5, 100)})):
+            cases.append((text, want, cat, d is not None and cp > 127))
+    resps = ctx.driver.batch([{'op': 'parse', 'text': c[0]} for c in cases])
+    for (text, want, cat, nontrivial), resp in zip(cases, resps):
+        res = compare_text(ctx, 'digit-values', st, text, resp, [cat], expected=want, nontrivial=nontrivial)
+        if want is not None and model_out(resp) != {'expr': want}:
+            ctx.disagree('digit-values', text, {'expected-from-unicodedata': want}, resp, 'model differs from the value unicodedata gives')
+    st.exhaustive = True
+
+
 def streams(ctx):
     stream_chain(ctx)
     stream_chaintext(ctx)
     stream_expr(ctx)
     stream_tokens(ctx)
+    stream_digit_values(ctx)
     stream_print_parse(ctx)
     shrink_witnesses(ctx)
 
@@ -1055,5 +1109,5 @@ LEVEL_TEXT = ('Theorems, for texts of any length and nesting: the generated BINA
               'malformed token strings; random trees printed by the model printer and parsed by the real parser) and by an independent '
               'precedence-climbing reference parser run against the implementation.')
 LEVEL_NOTE = ('Trusted: Lean kernel; extract.py; correspondence harness and its reference parser. Modelled not verified: CPython re (each '
-              'token pattern re-implemented by hand, backtracking included; \\w and \\d on ASCII only - non-ASCII identifiers/digits are '
-              'checked on the implementation only), float(text). Theorems are about the Lean model of parse_expression.')
+              'token pattern re-implemented by hand, backtracking included; \\s \\d \\w from frozen Unicode tables compared with re for every code '
+              'point), float(text). Theorems are about the Lean model of parse_expression.')
